@@ -12,6 +12,7 @@ import (
 	"go/types"
 	"math/big"
 	"sort"
+	"strings"
 
 	"gcv/internal/core"
 
@@ -342,6 +343,16 @@ func (li *limbInterp) step(ins ssa.Instruction) {
 					// reading a limb that this function already overwrote: value = what was stored
 					li.vals[x] = &lval{iv: li.outPath[fmt.Sprintf("%s.n[%d]", p, i)]}
 					return
+				}
+				// alias safety at the limb level: limb i of another parameter must not have been
+				// written before limb i of this one is read (r may alias a)
+				for k := range li.stored {
+					var q string
+					var j int
+					fmt.Sscanf(strings.Replace(k, ".n[", " ", 1), "%s %d]", &q, &j)
+					if q != p && j == i {
+						li.issue(x.Pos(), "limb %d of %s is read after limb %d of %s was written: wrong when %s aliases %s", i, p, j, q, q, p)
+					}
 				}
 				if iv, ok := li.in(p, i); ok {
 					li.vals[x] = &lval{iv: iv}
